@@ -111,6 +111,17 @@ func Digest(r *Run) *Obs {
 			o.Decoys = append(o.Decoys, e)
 		}
 	}
+	// constructor runs triggered by a CreateScope operation belong to the scope being created
+	// (-2: the creation failed, the scope never materialised)
+	for _, run := range o.Runs {
+		if run.Op >= 0 && run.Op < len(r.Ops) && r.Ops[run.Op].Kind == OpCreate {
+			if run.Op < len(r.Results) && r.Results[run.Op].NewScope > 0 {
+				run.Scope = r.Results[run.Op].NewScope
+			} else {
+				run.Scope = -2
+			}
+		}
+	}
 	for i := range r.Results {
 		res := &r.Results[i]
 		if res.Class != "ok" {
